@@ -41,6 +41,7 @@ struct ReadOpts {
   int handler = H_CHECK;
   bool want_items = false;
   bool norm_zero = false;
+  long max_notifications = 0;   // recording handler only; 0 = unlimited
 };
 
 // (i) mp::ReadNLString on an exact-size heap copy of the bytes
